@@ -21,7 +21,7 @@ CONFIGS = {
     "default": dict(atoms=["a"], bad=["x"], table="AllOps", steps="DefaultSteps", lenient=True,
                     alpha_q=["a", "x", "+", "*", "("], alpha_t=["a", "x", "+", "*", "(", ")", "!"]),
     "muldiv": dict(atoms=["a"], bad=["x"], table='{"(", "*", "/"}', steps="DefaultSteps", lenient=True,
-                   alpha_q=["a", "x", "*", "/", "("], alpha_t=["a", "x", "*", "/", "(", ")", "+"]),
+                   alpha_q=["a", "x", "*", "/", "("], alpha_t=["a", "x", "*", "/", "(", ")", "<"]),   # not "+": `+2.5` is a valid number text
     "addgt": dict(atoms=["a"], bad=["x"], table='{"(", "+", ">"}', steps="AddGtSteps", lenient=True,
                   alpha_q=["a", "x", "+", ">", "("], alpha_t=["a", "x", "+", ">", "(", ")", "*"]),
 }
